@@ -69,6 +69,13 @@ func buildTaint(c *Ctx) *taint.Engine {
 		addEntry(c.A.Method(ep.rel, ep.typ, ep.name))
 	}
 	addEntry(c.A.Func("", "Process8023Frame"))
+	// the exported Session setters the handlers call with addresses taken from the frame (round 14: C10-14):
+	// their slice arguments may be views of the receive buffer whoever the caller is
+	for _, name := range []string{"SetDHCPv4IPOffer", "DHCPv4Update", "Capture", "Release", "IsCaptured", "DHCPv4IPOffer"} {
+		if fn := c.A.Method("", "Session", name); fn != nil {
+			addEntry(fn)
+		}
+	}
 	for _, rt := range rootStateTypes {
 		pk := c.P.Pkg(rt.rel)
 		if pk == nil || pk.Type(rt.typ) == nil {
@@ -84,7 +91,7 @@ func buildTaint(c *Ctx) *taint.Engine {
 func runC10(c *Ctx) {
 	r := c.R
 	r.Explanation = "Whole-module may-alias analysis (field-sensitive taint with inclusion-based points-to, context-insensitive over the VTA call graph). Seeds: the []byte parameter of Session.Parse and every " +
-		"view/byte-slice parameter of the receive entry points; Frame parameters receive what Parse returns. A value is tainted if it may reference memory of the packet buffer; string(b)/[]byte(s) conversions, " +
+		"view/byte-slice parameter of the receive entry points and of the exported Session setters (SetDHCPv4IPOffer, DHCPv4Update, Capture, Release, IsCaptured, DHCPv4IPOffer); Frame parameters receive what Parse returns. A value is tainted if it may reference memory of the packet buffer; string(b)/[]byte(s) conversions, " +
 		"make+copy, value types (netip.Addr, time.Time, arrays, integers) and the verified fresh-result table are clean. Every retention point - a store/map update/append into an object that outlives the call " +
 		"(Session, handlers and everything reachable from them through stored pointers; globals), a channel send, a goroutine start - whose value type could carry a byte slice is one obligation, discharged iff the value is untainted. " +
 		"Inductive argument: if no retention point ever receives a tainted value, long-lived state never contains a buffer alias, so loads from it are clean - which is how the analysis treats them. " +
